@@ -333,7 +333,7 @@ def Prog.evalTab (canCat : Bool) (fidx : List Nat) (tabs : List Ext) : Prog → 
   | .sel p ix =>
     match p.evalTab canCat fidx tabs with
     | some (.lz e) => (e.index ix).map Tab.lz
-    | some (.eg r) => (pyIndex r ix).map Tab.eg
+    | some (.eg r) => (PyIdx.pyIndex r ix).map Tab.eg
     | none => none
   | .cat p q =>
     match p.evalTab canCat fidx tabs, q.evalTab canCat fidx tabs with
